@@ -16,12 +16,12 @@ from concurrent.futures import ThreadPoolExecutor
 
 import vlib
 
-TAGS = ["i", "d", "s", "m", "p"]
-TAG_NAME = {"i": "int", "d": "double", "s": "std::string", "m": "Eigen::MatrixXd", "p": "probe", "v": "void"}
+TAGS = ["i", "d", "s", "m", "p", "t"]
+TAG_NAME = {"i": "int", "d": "double", "s": "std::string", "m": "Eigen::MatrixXd", "p": "probe", "t": "throwing probe", "v": "void"}
 CATS = ["l", "c", "r", "x"]          # T&, const T&, T&&, const T&&
 FORMS = ["l", "c", "r", "m"]         # any_cast<T>(any&), (const any&), (any&&), any_cast<T&&>(any&&)
 POOL = 3
-MOVES_EMPTY = {"s", "m", "p"}        # held types whose move constructor visibly changes the source
+MOVES_EMPTY = {"s", "m", "p", "t"}        # held types whose move constructor visibly changes the source
 
 DEAD, EMPTY = None, ()
 
@@ -52,8 +52,36 @@ class Spec:
     def free(self, k):
         return 0 <= k < POOL and self.slots[k] is DEAD
 
-    def apply(self, tok, hist=None):
-        """returns the result token; mutates the state; records the model branch taken in hist"""
+    def copies_thrower(self, tok):
+        """does the operation copy-construct a held object of the throwing probe type (as any.h is written)?"""
+        f = tok.split(":")
+        op, s = f[0], self.slots
+        holds_t = lambda k: self.live(k) and s[k] != EMPTY and s[k][0] == "t"
+        if op == "ca":
+            return self.free(int(f[1])) and f[3] != "r" and holds_t(int(f[2]))
+        if op == "cv":
+            return self.free(int(f[1])) and f[2] != "r" and f[3] == "t"
+        if op == "aa":
+            return self.live(int(f[1])) and f[3] != "r" and holds_t(int(f[2]))
+        if op == "av":
+            return self.live(int(f[1])) and f[2] != "r" and f[3] == "t"
+        if op == "vc":
+            return f[2] == "t" and f[3] != "m" and holds_t(int(f[1]))
+        return False
+
+    def apply(self, tok, hist=None, threw=None):
+        """returns the result token; mutates the state; records the model branch taken in hist.
+        A leading `!` arms the throwing probe: if the operation throws, nothing changes (the strong guarantee
+        of copy-and-swap; a container under construction does not come to life).  threw=None: the operation
+        throws iff any.h as written copy-constructs a throwing probe in it; True/False: follow the observed outcome."""
+        if tok[0] == "!":
+            tok = tok[1:]
+            will = self.copies_thrower(tok) if threw is None else threw
+            if hist is not None:
+                b = "armed:" + tok[:2] + (":throws" if will else ":no-copy-of-thrower")
+                hist[b] = hist.get(b, 0) + 1
+            if will:
+                return "threw"
         f = tok.split(":")
         op = f[0]
         s = self.slots
@@ -168,7 +196,7 @@ class Spec:
         raise ValueError("bad op token " + tok)
 
     def probes(self):
-        return sum(1 for x in self.slots if x not in (DEAD, EMPTY) and x[0] == "p")
+        return sum(1 for x in self.slots if x not in (DEAD, EMPTY) and x[0] in ("p", "t"))
 
     def view(self):
         out = []
@@ -176,11 +204,37 @@ class Spec:
             if x is DEAD:
                 out.append("D")
             elif x == EMPTY:
-                out.append("0v:x,x,x,x,x:x,x,x,x,x:x,x,x,x,x")
+                out.append(_EMPTY_VIEW)
             else:
                 row = ",".join(str(x[1]) if t == x[0] else "x" for t in TAGS)
                 out.append("1%s:%s:%s:%s" % (x[0], row, row, row))
         return out
+
+
+_EMPTY_VIEW = "0v:" + ":".join([",".join("x" for _ in TAGS)] * 3)
+
+
+def spec_follow(line, hout):
+    """specification output when the armed operations throw exactly where the implementation's output says
+    they did (the property does not fix how many copies an operation makes, hence not which armed operation
+    throws; it does fix that a throwing operation changes nothing and leaks nothing)"""
+    t = line.split()
+    full = t[2] == "F"
+    ops = t[3:]
+    ht = hout.split()
+    sp = Spec()
+    out = []
+    pos = 0
+    for i, tok in enumerate(ops):
+        obs = ht[pos] if pos < len(ht) else None
+        out.append(sp.apply(tok, threw=(obs == "threw") if tok[0] == "!" else None))
+        out.append("c=%d" % sp.probes())
+        pos += 2
+        if full or i == len(ops) - 1:
+            out += sp.view()
+            pos += POOL
+    out += ["END", "c=0", "leak=0"]
+    return " ".join(out)
 
 
 def spec_line(line, rmove=False):
@@ -199,7 +253,7 @@ def spec_line(line, rmove=False):
     return " ".join(out)
 
 
-_RVAL = re.compile(r" vc:\d+:[idsmp]:r( |$)")
+_RVAL = re.compile(r" !?vc:\d+:[idsmpt]:r( |$)")
 _MASK = re.compile(r"c=(-?\d+)/-?\d+/-?\d+|src=\S+")
 
 
@@ -217,7 +271,15 @@ def code_for(depth, kind, ti):
     return 100 * (depth + 1) + 10 * kind + ti
 
 
-def alphabet(sp, depth, tags, full=False):
+def alphabet(sp, depth, tags, full=False, armed=False):
+    ops = _alphabet(sp, depth, tags, full)
+    if armed:
+        # every operation in which any.h may copy-construct a held object, also with the throwing probe armed
+        ops = ops + ["!" + o for o in ops if o[:2] in ("ca", "cv", "aa", "av", "vc")]
+    return ops
+
+
+def _alphabet(sp, depth, tags, full=False):
     """valid operations in specification state `sp`.
     reduced alphabet (full=False): constructions only into the lowest destroyed slot (destroyed slots
     carry no state: renaming symmetry); argument categories const T& and T&& only; member swap with
@@ -264,14 +326,14 @@ def alphabet(sp, depth, tags, full=False):
     return ops
 
 
-def enumerate_seqs(maxlen, tags, full, hist, minlen=1):
+def enumerate_seqs(maxlen, tags, full, hist, minlen=1, armed=False):
     """all sequences of valid operations of length minlen..maxlen from the all-destroyed pool.
     yields (line, expected masked output); every sequence is its own case (view after the last op)."""
     out = []
     tail = " END c=0 leak=0"
 
     def rec(sp, depth, toks, pref):
-        for tok in alphabet(sp, depth, tags, full):
+        for tok in alphabet(sp, depth, tags, full, armed):
             sp2 = sp.copy()
             r = sp2.apply(tok, hist if depth + 1 >= minlen else None)
             toks2 = toks + " " + tok
@@ -346,6 +408,8 @@ def random_seq(g, idx, maxlen, hist, TAGS=TAGS, churn=False):
                 tok = "vc:%d:%s:%s" % (a, tag, r.choice(FORMS))
             else:
                 tok = "pc:%s:%s:%d" % ("n" if r.random() < 0.1 else str(a), tag, r.randint(0, 1))
+        if tok[:2] in ("ca", "cv", "aa", "av", "vc") and r.random() < (0.4 if "t" in TAGS and churn is None else 0.12):
+            tok = "!" + tok
         sp.apply(tok, hist)
         toks.append(tok)
     return "anyseq %d F %s" % (POOL, " ".join(toks))
@@ -353,7 +417,7 @@ def random_seq(g, idx, maxlen, hist, TAGS=TAGS, churn=False):
 
 # --------------------------------------------------------------------------- running
 
-def run_harness_limited(binary, lines, max_crashes, timeout=900):
+def run_harness_limited(binary, lines, max_crashes, timeout=None):
     """vlib.run_harness with an upper bound on the number of restarts after a crash; cases not run
     are reported as None.  Returns (outputs, logs, lsan_at_exit)."""
     outs, logs = [], {}
@@ -361,6 +425,8 @@ def run_harness_limited(binary, lines, max_crashes, timeout=900):
     env.setdefault("ASAN_OPTIONS", "detect_leaks=1:abort_on_error=0:halt_on_error=1")
     env.setdefault("UBSAN_OPTIONS", "print_stacktrace=1")
     i, crashes, lsan = 0, 0, False
+    if timeout is None:
+        timeout = 20 + len(lines) // 300      # a clean run needs about 1 s per 3000 sequences
     while i < len(lines):
         if crashes >= max_crashes:
             outs.extend([None] * (len(lines) - i))
@@ -368,8 +434,30 @@ def run_harness_limited(binary, lines, max_crashes, timeout=900):
         chunk = lines[i:]
         try:
             rc, o, e = vlib.sh([str(binary)], inp="\n".join(chunk) + "\n", timeout=timeout, env=env)
-        except subprocess.TimeoutExpired:
-            outs.append("crash:timeout"); logs[len(outs) - 1] = "timeout"; crashes += 1; i = len(outs)
+        except subprocess.TimeoutExpired as ex:
+            # a hang: keep the outputs that arrived, then run the following cases one by one to find the one that hangs
+            part = ex.stdout or ""
+            if isinstance(part, bytes):
+                part = part.decode("utf-8", "replace")
+            done = part.split("\n")[:-1]
+            done = done[:max(0, min(len(done), len(chunk) - 1))]
+            outs.extend(done)
+            j = len(done)
+            found = False
+            while j < len(chunk) and j < len(done) + 400:
+                try:
+                    rc1, o1, e1 = vlib.sh([str(binary)], inp=chunk[j] + "\n", timeout=20, env=env)
+                    outs.append(o1.split("\n")[0] if rc1 == 0 and o1.strip() else vlib.classify_crash(e1, rc1))
+                except subprocess.TimeoutExpired:
+                    outs.append("crash:timeout"); logs[len(outs) - 1] = "no output within 20 s for this single sequence"
+                    found = True
+                    j += 1
+                    break
+                j += 1
+            if not found and j < len(chunk):
+                outs.append("crash:timeout"); logs[len(outs) - 1] = "the process hung; no single sequence hangs on its own"
+            crashes = max_crashes          # one located hang is enough: every further one costs a full timeout
+            i = len(outs)
             continue
         got = o.split("\n")
         if got and got[-1] == "":
@@ -439,6 +527,17 @@ def run_both(binaries, lines, workers, max_crashes=12):
     return res, dout
 
 
+def follow(line, h, want):
+    """the specification output to hold the implementation against: for histories with armed operations the one
+    that throws where the implementation threw"""
+    if "!" in line and h and "crash:" not in h and not h.startswith(("throw:", "bad-")):
+        try:
+            return spec_follow(line, h)
+        except Exception:
+            return want
+    return want
+
+
 def classify(line, h, d, want):
     """returns list of (kind, key, what) for one case; `want` = specification output (masked)"""
     probs = []
@@ -465,7 +564,7 @@ def classify(line, h, d, want):
                 key, what = "probe-live-count", "live probe instances: implementation %s, specification %s (held object leaked or destroyed twice)" % (a[2:], b[2:])
             elif b.startswith("r="):
                 key, what = "cast-result", "cast returned %s, specification %s (x = nullptr / bad_any_cast)" % (a[2:], b[2:])
-            elif b in ("ok", "inv"):
+            elif b in ("ok", "inv", "threw", "src") or a == "threw":
                 key, what = "op-result", "operation result %s, specification %s" % (a, b)
             else:
                 key, what = "view", "slot view %s, specification %s (format <has_value><type>:ptr casts:const ptr casts:ref casts per type i,d,s,m,p)" % (a, b)
@@ -494,7 +593,7 @@ def shrink(binary, line, key):
         if lsan:
             return True
         for rm in ((False, True) if _RVAL.search(ln) else (False,)):
-            w = spec_line(ln, rm)
+            w = follow(ln, h[0], spec_line(ln, rm)) if not rm else spec_line(ln, rm)
             ps = [p for p in classify(ln, h[0], w, w) if p[0] == "prop"]
             if not any(p[1] == key or key.startswith("crash") and p[1].startswith("crash") for p in ps):
                 return False
@@ -503,7 +602,7 @@ def shrink(binary, line, key):
     if not fails(ops):
         return line, None
     changed = True
-    budget = 60
+    budget = 8 if key == "crash:timeout" else 60
     while changed and budget > 0:
         changed = False
         for i in range(len(ops) - 1, -1, -1):
@@ -573,7 +672,9 @@ def run(ctx):
                     continue
                 if _RVAL.search(line) and not h.startswith("crash") and mask(h) == spec_line(line, rmove=True):
                     continue
-                for kind, key, what in classify(line, h, d, want):
+                if "!" in line and not h.startswith("crash") and mask(h) == spec_follow(line, h):
+                    continue
+                for kind, key, what in classify(line, h, d, follow(line, h, want)):
                     key = key + "@" + build
                     what = "[%s build] %s" % (build, what)
                     (acc["prop_bad"] if kind == "prop" else acc["corr_bad"]).append(
@@ -586,7 +687,7 @@ def run(ctx):
             ops = line.split()[3:]
             acc["ops"] += len(ops)
             # non-trivial: at least two operations, one of which (after the first) is not a construction
-            if len(ops) >= 2 and any(o[:2] in ("ca", "aa", "av", "sw", "rs", "pk", "pr", "vc", "ds", "pc") for o in ops[1:]):
+            if len(ops) >= 2 and any(o.lstrip("!")[:2] in ("ca", "aa", "av", "sw", "rs", "pk", "pr", "vc", "ds", "pc") for o in ops[1:]):
                 acc["nontrivial"].add(hl)
             if h == d and mask(h) == want:
                 continue
@@ -596,7 +697,10 @@ def run(ctx):
             if _RVAL.search(line) and not h.startswith("crash") and mask(h) == spec_line(line, rmove=True):
                 acc["mech"].append((line, h, d))      # the rvalue value cast moves the held object out: allowed
                 continue
-            for kind, key, what in classify(line, h, d, want):
+            if "!" in line and not h.startswith("crash") and mask(h) == spec_follow(line, h):
+                acc["mech"].append((line, h, d))      # another armed operation threw than in the model: not promised
+                continue
+            for kind, key, what in classify(line, h, d, follow(line, h, want)):
                 if build != "asan":
                     key, what = key + "@" + build, "[%s build] %s" % (build, what)
                 (acc["prop_bad"] if kind == "prop" else acc["corr_bad"]).append(
@@ -607,9 +711,9 @@ def run(ctx):
             acc["prop_bad"].append(("crash:lsan", "LeakSanitizer reported a leak at process exit although every sequence balanced its allocations",
                                     lines[min(k, len(lines) - 1)], "crash:lsan", "", "", logs.get(k, ""), build, []))
 
-    def enum_block(name, maxlen, tags, full, minlen=1, builds=("asan", "plain")):
+    def enum_block(name, maxlen, tags, full, minlen=1, builds=("asan", "plain"), armed=False):
         t1 = time.time()
-        seqs = enumerate_seqs(maxlen, tags, full, hist, minlen)
+        seqs = enumerate_seqs(maxlen, tags, full, hist, minlen, armed)
         acc["tgen"] += time.time() - t1
         n = len(seqs)
         process(name, [(l, w, name) for l, w in seqs], builds)
@@ -664,9 +768,20 @@ def run(ctx):
             bl = ("asan", "plain") if o in ("i", "d") else ("asan",)
             if o != rot[0]:
                 enum_block("reduced<=3[p,%s]" % o, 3, ["p", o], False, builds=bl)
+            if ctx.quick() and o not in rot[:2]:
+                continue        # quick: length 4 for two companion types (rotating with the seed), thorough: all four
             n4 += enum_block("reduced=4[p,%s]" % o, 4, ["p", o], False, minlen=4, builds=bl)
-        rules.append("reduced alphabet, for each companion type T in {%s}, held types {probe,T}: all sequences of length 1..4 (%d of length 1..3 for the "
-                     "first T, %d of length 4 in total)" % (", ".join(TAG_NAME[o] for o in companions), n_red3, n4))
+        rules.append("reduced alphabet, for each companion type T in {%s}, held types {probe,T}: all %d sequences of length 1..3; of length 4 for T in {%s}: "
+                     "%d in total" % (", ".join(TAG_NAME[o] for o in companions), n_red3,
+                                      ", ".join(TAG_NAME[o] for o in (rot[:2] if ctx.quick() else rot)), n4))
+        # exceptions: the throwing probe (alone and with the counting probe), every copying operation also armed
+        n_thr = enum_block("throwing<=3[t,p]", 3, ["t", "p"], False, builds=("asan",), armed=True)
+        n_thr += enum_block("throwing=4[t]", 4, ["t"], False, minlen=4, builds=("asan",), armed=True) if not ctx.quick() else 0
+        rules.append("exceptions: reduced alphabet over held types {throwing probe, probe} in which every operation that may copy a held object "
+                     "(construction / assignment from a container or a value, value casts) also occurs armed (`!op`: the next copy construction of "
+                     "the throwing probe throws): all %d sequences of length 1..3%s; a throwing operation must change nothing (strong guarantee of "
+                     "copy-and-swap, no half-constructed container) and leak nothing" % (n_thr, "" if ctx.quick() else " and of length 4 over {throwing probe}"))
+        random_block(ctx.gen("any-throw"), 0, 150 if ctx.quick() else 2000, ["t", "p", "s"], None, "random-throwing[t,p,s]")
         # address reuse: held types of one allocation size class (holder<int|double|probe>: 16 bytes,
         # holder<string|MatrixXd>: 40 / 32 bytes, one malloc bin each), so that a new holder of another type
         # lands on the block of a destroyed one.  Only meaningful without ASan's quarantine.
@@ -712,7 +827,7 @@ def run(ctx):
                 data["input_lines"] = pre + [line]
                 what += " (only after the %d preceding sequences of the same process, recorded in the replay)" % len(pre)
         else:
-            again = [p for p in classify(sline, sh, spec_line(sline), spec_line(sline)) if p[0] == "prop"]
+            again = [p for p in classify(sline, sh, follow(sline, sh, spec_line(sline)), follow(sline, sh, spec_line(sline))) if p[0] == "prop"]
             if again:
                 what = ("[%s build] " % build if build != "asan" else "") + again[0][2]
         data.update({"input_line": sline, "observed": sh[:3000], "expected": spec_line(sline)[:3000],
